@@ -106,7 +106,8 @@ def correspondence(ctx):
         elif not r["verdict"].startswith("ok"):
             if len(broken) < 10:
                 broken.append({"what": "the scheduled run is not a behaviour of the model: " + r["verdict"][:600], "scenario": r["sc"].ident()})
-        else:
+        elif oracles.determined(oracles.Ctx(r["w"], r["rr"], r["ce"])):
+            stats["runs of worlds whose data determines the outcome"] += 1
             trees[r["sc"].index].add(repr(sorted((k, v[0], v[1] if v[0] != "dir" else None) for k, v in r["rr"].after.items())))
     for idx, ts in trees.items():
         if len(ts) > 1 and len(findings) < 5:
